@@ -15,29 +15,33 @@ import shutil
 from pathlib import Path
 
 ID = "C19"
-LEVEL_TEXT = ("Theorems for all trees (any depth, any member count): every runtime member survives a merge at its path with its kind, in its "
-              "position; per-name field table of one merged scope (function: annotations by name/returns/overloads from the stubs, attribute: "
-              "annotation from the stubs, docstring only when missing, class/module: recursive, kind mismatch/alias on either side: untouched, "
-              "stub-only: appended with runtime=False); aliases are never touched; merge_stubs and the implicit merge of set_member give the same "
-              "result in both orders; no error unless a known gap. Two genuine defects are proved as refutations with decidable gap predicates "
-              "(F1 alias + overload-only stub raises and makes the result order dependent, F2 overload-only stub clobbers a non-function). "
-              "Model tied to /repo by differential runs on generated file pairs in four placements and both discovery orders.")
-LEVEL_NOTE = ("Trusted: Coq kernel, extraction, the live-object -> tree abstraction and generators in this module. Values not objects: an alias is an "
-              "opaque leaf whose target is not loaded (aliases to loaded objects, where merger.py deliberately merges into the target, are outside the "
-              "model and only exercised by the direct checks). Expressions are their str() text. Contents of the per-scope overload buffer "
+LEVEL_TEXT = ("Theorems for all trees (any depth, any member count): every runtime member survives a merge at its path with its kind / alias identity, "
+              "in its position, even in the partial state a raising merge leaves; per-name field table of one merged scope (function: annotations by "
+              "name/returns/overloads from the stubs, attribute: annotation from the stubs, docstring only when missing, class/module: recursive, kind "
+              "mismatch or alias on either side: untouched, stub-only: appended with runtime=False, alias to a loaded object: merged into the target); "
+              "unloaded aliases are never touched; merge_stubs and the implicit merge of set_member give the same result in both orders; a merge raises "
+              "exactly in gap F1 and then AliasResolutionError. Three genuine defects are proved as refutations with decidable gap predicates "
+              "(F1 alias + overload-only stub raises / order dependent, F2 overload-only stub clobbers a non-function, F3 stub-only members below an "
+              "alias are dropped) and the statements hold modulo them. Model tied to /repo by differential runs on generated file pairs in five "
+              "placements and both discovery orders.")
+LEVEL_NOTE = ("Trusted: Coq kernel, extraction, the live-object -> tree abstraction and generators in this module. Values not objects: an alias is either "
+              "an opaque leaf (target not loaded) or carries the value of its loaded final target (one alias per target; chains of loaded aliases and "
+              "resolution order between third files are not modelled). Expressions are their str() text. Contents of the per-scope overload buffer "
               "(Module/Class.overloads) of the *result* are not compared (bookkeeping that depends on how often the loader merges). The loader's second "
-              "merge of the same pair is modelled (load_package) and checked by (C); its idempotence is not a theorem.")
+              "merge of the same pair is modelled (load_package, residual) and checked by (C) only; its idempotence is not a theorem.")
 MODEL = ("Model.C19_merge", "run_C19")
 COQ_TARGETS = ["Proofs/C19_merge.vo"]
 RULE = ("seeded random scope pairs: per name the runtime side is absent/attribute/function(+overloads)/class/alias and the stubs side is "
         "absent/attribute/function/overloads+implementation/overloads only/class/alias, with ~70% overlap, ~20% kind mismatch, classes nested to depth 3, "
         "stub parameters a random subset of the runtime ones plus extras, docstrings present/missing on each side independently; each pair is "
         "run through merge_stubs(a,b), merge_stubs(b,a), pkg/m.py+m.pyi in both os.walk orders, top-level module or package __init__ pair, and "
-        "pkg + pkg-stubs with optional stub-only / runtime-only submodules; plus a hand-written corpus of edge pairs. "
+        "pkg + pkg-stubs with optional stub-only / runtime-only submodules; every third pair also as pkg/a_impl.py (runtime code) + pkg/m.py "
+        "re-exporting its objects + pkg/m.pyi (aliases to loaded targets) in both orders; plus a hand-written corpus of edge pairs. "
         "non-trivial = at least one name present on both sides; distinct by (py source, pyi source)")
 TRUSTED = ["abstraction: harness reads kind, docstring.value, [(p.name, str(p.annotation))], str(returns), overloads, str(annotation), runtime, "
            "imports and members (recursively, without touching Alias.target) of a live Griffe object into the model's `tree`"]
-ASSUMPTIONS = ["aliases in generated programs point to packages that are not on the search path (unresolvable at merge time)",
+ASSUMPTIONS = ["aliases in generated programs point either to packages that are not on the search path (unresolvable at merge time) or to objects of a "
+               "module of the same package that is discovered before the pair",
                "member and parameter names are unique per scope (dict semantics) - theorem hypothesis wf/NoDup"]
 ALLOWED_AXIOMS: list = []
 
@@ -234,6 +238,9 @@ def gen_pair(rng):
 F1_WITNESS = ("from extpkg import g\nA = 1\n", "from typing import overload\n@overload\ndef g(x: int) -> int: ...\n@overload\ndef g(x: str) -> str: ...\nA: int\n")
 F2_WITNESS = ("class K:\n    def m(self): ...\nA = 1\n", "from typing import overload\n@overload\ndef K(x: int) -> int: ...\n@overload\ndef A(x: str) -> str: ...\n")
 
+F3_WITNESS = {"a_impl.py": "class C:\n    def m(self): ...\n", "m.py": "from pkg.a_impl import C\n",
+              "m.pyi": "class C:\n    def m(self) -> int: ...\n    def only(self) -> int: ...\n"}
+
 # hand-written edge pairs (always run first): each reaches a row of the table that random generation reaches rarely
 CORPUS = [
     # the defect repaired by the fix: commit: overloads + implementation in the stub
@@ -309,6 +316,8 @@ def norm_result(t):
     """What is compared of a merged tree: imports sorted, contents of scope buffers dropped (see LEVEL_NOTE)."""
     if t[0] == "alias":
         return t
+    if t[0] == "alias_to":
+        return [t[0], t[1], t[2], norm_result(t[3])]
     t = list(t)
     if t[OV][0] == "dict":
         t[OV] = ["dict", []]
@@ -324,7 +333,7 @@ def norm_model(r):
     if r[0] == "raised":
         return ["raised", r[1], norm_result(r[2])]
     v = r[1]
-    if v and v[0] in ("obj", "alias"):
+    if v and v[0] in ("obj", "alias", "alias_to"):
         return ["ok", norm_result(v)]
     return ["ok", [v[0], norm_result(v[1])]]
 
@@ -409,7 +418,8 @@ def run_load(search: Path, name: str, member, reverse=False, **kw):
 # ----------------------------------------------------------------------------------------------------------------------
 # the property, read declaratively over abstracted trees (no model, no fold): what the merged scope must be
 # ----------------------------------------------------------------------------------------------------------------------
-def spec_scope(s, o):
+def spec_scope(s, o, add_stub_only=True):
+    """add_stub_only=False is the behaviour of known finding F3 (scope reached through an alias), used only to classify."""
     buf = {k: v for k, v in s[OV][1]} if s[OV][0] == "dict" else {}
     smap = {n: t for n, t in s[MEM]}
     out = []
@@ -433,11 +443,11 @@ def spec_scope(s, o):
         elif om2[KIND] == "attribute":
             r[ANN] = sm[ANN]
         else:
-            r = spec_scope(sm, om2)
+            r = spec_scope(sm, om2, add_stub_only)
         out.append([n, r])
     onames = {n for n, _ in o[MEM]}
     for n, sm in s[MEM]:
-        if n not in onames:
+        if n not in onames and add_stub_only:
             sm2 = list(sm)
             sm2[2 if sm[0] == "alias" else RT] = False
             out.append([n, sm2])
@@ -484,6 +494,8 @@ def tree_diff(a, b, path=()):
         return [(path, "alias-vs-object")]
     if a[0] == "alias":
         return [] if a == b else [(path, "alias")]
+    if a[0] == "alias_to":
+        return ([] if a[:3] == b[:3] else [(path, "alias")]) + tree_diff(a[3], b[3], path)
     out = [(path, FIELDS[i]) for i in FIELDS if a[i] != b[i]]
     an, bn = [n for n, _ in a[MEM]], [n for n, _ in b[MEM]]
     if an != bn:
@@ -577,11 +589,19 @@ def _run_case(ctx, d, case, py, pyi, stream, use_model, idx):
     # ---- direct evaluation of the property on the implementation
     expected = norm_result(spec_scope(t_pyi, t_py))
     f2_set = set(f2_paths)
+    # F1 as the findings file describes it: a hit in the module's own scope makes merge_stubs raise (direct call, top-level
+    # pair) or leaves the second file unmerged (m.py/m.pyi in a package); a deeper hit silently aborts the merge of that class.
+    f1_top = any(len(p) == 1 for p in f1_paths)
+    f1_scopes = {p[:-1] for p in f1_paths}
+
+    def under_f1(path):
+        return any(path[:len(sc)] == sc for sc in f1_scopes)
+
     placements_m = {}
     for k, v in impl.items():
         if v[0] == "err":
-            fid = "C19-F1" if (f1_paths and v[1] == "AliasResolutionError") else None
-            ctx.property_failure({**case, "placement": k}, {"raised": v[1], "expected": "no exception"}, finding=fid)
+            known = f1_top and v[1] == "AliasResolutionError" and (k.startswith("direct") or k == "toplevel")
+            ctx.property_failure({**case, "placement": k}, {"raised": v[1], "expected": "no exception"}, finding="C19-F1" if known else None)
             continue
         is_pyi, tree = v[1]
         if k == "stubs-package":
@@ -601,38 +621,37 @@ def _run_case(ctx, d, case, py, pyi, stream, use_model, idx):
             tree = mm["m"]
         placements_m[k] = tree
         if is_pyi:
-            fid = "C19-F1" if f1_paths else None
-            ctx.property_failure({**case, "placement": k}, {"result_is": "the stubs module (.pyi filepath)", "expected": "the runtime module"}, finding=fid)
+            known = f1_top and k == "inpkg(py first)"
+            ctx.property_failure({**case, "placement": k}, {"result_is": "the stubs module (.pyi filepath)", "expected": "the runtime module"},
+                                 finding="C19-F1" if known else None)
             continue
         lost = lost_members(t_py, tree)
         if lost:
             ctx.property_failure({**case, "placement": k}, {"lost_runtime_members": lost}, finding=None)
         diffs = tree_diff(tree, expected)
-        if f1_paths and diffs:
-            # the merge was aborted by the alias error (set_member swallows it): known F1
-            ctx.property_failure({**case, "placement": k}, {"differences": diffs[:10]}, finding="C19-F1")
-        else:
-            unknown = [x for x in diffs if not (x[0] in f2_set and x[1] == "overloads")]
-            known = [x for x in diffs if x[0] in f2_set and x[1] == "overloads"]
-            if known:
-                ctx.property_failure({**case, "placement": k}, {"differences": known[:10]}, finding="C19-F2")
-            if unknown:
-                ctx.property_failure({**case, "placement": k}, {"differences_from_property": [list(map(str, x)) for x in unknown[:10]],
-                                                                "merged": tree, "expected": expected})
+        k1 = [x for x in diffs if under_f1(x[0])]
+        k2 = [x for x in diffs if not under_f1(x[0]) and x[0] in f2_set and x[1] == "overloads"]
+        unknown = [x for x in diffs if x not in k1 and x not in k2]
+        if k1:
+            ctx.property_failure({**case, "placement": k}, {"differences": k1[:10]}, finding="C19-F1")
+        if k2:
+            ctx.property_failure({**case, "placement": k}, {"differences": k2[:10]}, finding="C19-F2")
+        if unknown:
+            ctx.property_failure({**case, "placement": k}, {"differences_from_property": [list(map(str, x)) for x in unknown[:10]],
+                                                            "merged": tree, "expected": expected})
         if unresolved[k]:
             ctx.property_failure({**case, "placement": k}, {"aliases_resolved_by_merging": unresolved[k]})
     # order independence / placement independence
     trees = list(placements_m.items())
-    for (k1, v1), (k2, v2) in zip(trees, trees[1:]):
+    for (k1_, v1), (k2_, v2) in zip(trees, trees[1:]):
         if v1 != v2:
-            fid = "C19-F1" if f1_paths else None
-            ctx.property_failure({**case, "placement": f"{k1} vs {k2}"}, {"order_or_placement_dependent": [list(map(str, x)) for x in tree_diff(v1, v2)[:10]]},
-                                 finding=fid)
+            ctx.property_failure({**case, "placement": f"{k1_} vs {k2_}"}, {"order_or_placement_dependent": [list(map(str, x)) for x in tree_diff(v1, v2)[:10]]},
+                                 finding="C19-F1" if f1_top else None)
     a, b = impl["inpkg(py first)"], impl["inpkg(pyi first)"]
     sa, sb = (a[1][0] if a[0] == "ok" else a[1]), (b[1][0] if b[0] == "ok" else b[1])
     if sa != sb:   # which module survived / which error; tree differences are reported above
         ctx.property_failure({**case, "placement": "inpkg both orders"}, {"py first: result is .pyi / error": sa, "pyi first: result is .pyi / error": sb},
-                             finding="C19-F1" if f1_paths else None)
+                             finding="C19-F1" if f1_top else None)
     if impl["direct(py,pyi)"] != impl["direct(pyi,py)"]:
         ctx.property_failure({**case, "placement": "merge_stubs argument order"}, {"a,b": str(impl["direct(py,pyi)"])[:300], "b,a": str(impl["direct(pyi,py)"])[:300]})
 
@@ -684,7 +703,13 @@ def observe_pair(ctx, s, o, depth):
                 ctx.observe("pending_overloads_hit", "absent" if om is None else (om[KIND] if om[0] == "obj" else "alias"))
 
 
+XCHECK: list = []     # a few model queries of every kind, kept for the thorough tier's extraction cross-check
+
+
 def compare_with_model(ctx, batch):
+    if len(XCHECK) < 40:
+        for b in batch[:18]:
+            XCHECK.extend([b[2]["merge"], b[2]["inpkg(py first)"], b[2]["stubs-package"], b[2]["gaps"]][:2 if len(XCHECK) > 24 else 4])
     keys = ["direct(py,pyi)", "direct(pyi,py)", "inpkg(py first)", "inpkg(pyi first)", "toplevel", "stubs-package", "gaps", "merge"]
     flat = [b[2][k] for b in batch for k in keys]
     outs = ctx.model(flat)
@@ -701,7 +726,7 @@ def compare_with_model(ctx, batch):
                                 {"differences": [list(map(str, x)) for x in (tree_diff(_tree(m), _tree(got))[:8] if m[0] == got[0] == "ok" else [])],
                                  "model": str(m)[:600], "impl": str(got)[:600]}, case)
         g = res["gaps"]
-        if [bool(g[0]), bool(g[1])] != [bool(f1p), bool(f2p)]:
+        if [bool(g[0]), bool(g[1])] != [bool(f1p), bool(f2p)] or g[2]:
             ctx.tie_failure("correspondence", "known_gap_F1/F2 (model) vs python mirror", {"model": g, "python": [f1p, f2p]}, case)
         # the theorem C19_merge_is_spec, sampled: outside the gaps the model's merge is the declarative reading
         mm = norm_model(res["merge"])
@@ -712,7 +737,7 @@ def compare_with_model(ctx, batch):
 
 def _tree(v):
     t = v[1]
-    return t if t and t[0] in ("obj", "alias") else t[1]
+    return t if t and t[0] in ("obj", "alias", "alias_to") else t[1]
 
 
 def witnesses(ctx):
@@ -733,8 +758,145 @@ def witnesses(ctx):
         mm = dict((n, t) for n, t in c[1][1][MEM])
         ok = mm["K"][OV][0] == "list" and mm["A"][OV][0] == "list"
     ctx.witness("C19-F2", ok)
-    shutil.rmtree(ctx.scratch / "w1", ignore_errors=True)
-    shutil.rmtree(ctx.scratch / "w2", ignore_errors=True)
+    import griffe
+    d = ctx.scratch / "w3"
+    write(d / "pkg" / "__init__.py", "")
+    write(d / "pkg" / "a_impl.py", F3_WITNESS["a_impl.py"])
+    write(d / "pkg" / "m.py", F3_WITNESS["m.py"])
+    write(d / "pkg" / "m.pyi", F3_WITNESS["m.pyi"])
+    with walk_listed(["__init__.py", "a_impl.py", "m.py", "m.pyi"]):
+        pkg = griffe.load("pkg", search_paths=[str(d)], allow_inspection=False)
+    c = pkg.members["a_impl"].members["C"]
+    ctx.witness("C19-F3", c.members["m"].returns is not None and "only" not in c.members)
+    for w in ("w1", "w2", "w3"):
+        shutil.rmtree(ctx.scratch / w, ignore_errors=True)
+
+
+# ----------------------------------------------------------------------------------------------------------------------
+# aliases whose target IS loaded: merger.py merges the stub into the target of the runtime alias (AlTo in the model).
+# (C) against set_member_module in both orders; direct evaluation: the target module must end up as the property says,
+# the aliases stay aliases, both orders agree.
+# ----------------------------------------------------------------------------------------------------------------------
+class walk_listed:
+    """Listing order for one directory given explicitly (first the files named, then the rest sorted)."""
+
+    def __init__(self, first):
+        self.first = first
+
+    def __enter__(self):
+        real = self.real = os.walk
+        first = self.first
+
+        def walk(*a, **k):
+            for root, dirs, files in real(*a, **k):
+                dirs.sort()
+                files.sort(key=lambda f: (first.index(f) if f in first else len(first), f))
+                yield root, dirs, files
+        os.walk = walk
+
+    def __exit__(self, *exc):
+        os.walk = self.real
+
+
+def run_resolvable_case(ctx, idx, py, pyi, use_model=True):
+    import griffe
+    d = ctx.scratch / f"res{idx}"
+    try:
+        write(d / "in" / "a_impl.py", py)
+        write(d / "in" / "m.pyi", pyi)
+        t_impl = abstract(visit_file(d / "in" / "a_impl.py", "a_impl"))
+        t_pyi = abstract(visit_file(d / "in" / "m.pyi"))
+        imported = [n for n, t in t_impl[MEM] if t[0] == "obj"]
+        if not imported:
+            return
+        m_src = "from pkg.a_impl import " + ", ".join(imported) + "\n"
+        case = {"a_impl.py": py, "m.py": m_src, "m.pyi": pyi, "stream": "alias-to-loaded-target"}
+        restricted = list(t_pyi)
+        restricted[MEM] = [[n, t] for n, t in t_pyi[MEM] if n in imported]
+        if t_pyi[OV][0] == "dict":
+            restricted[OV] = ["dict", [[k, v] for k, v in t_pyi[OV][1] if k in imported]]
+        exp = spec_scope(restricted, t_impl)
+        exp[DOC], exp[IMP] = t_impl[DOC], t_impl[IMP]
+        exp = norm_result(exp)
+        exp_f3 = spec_scope(restricted, t_impl, add_stub_only=False)     # what known finding F3 makes of it (mirror of known_gap_F3)
+        exp_f3[DOC], exp_f3[IMP] = t_impl[DOC], t_impl[IMP]
+        exp_f3 = norm_result(exp_f3)
+        ctx.observe("gap(alias-to-loaded-target)", "F3" if exp_f3 != exp else "none")
+        f1_paths, f2_paths = py_gaps(restricted, t_impl)
+        f1_scopes, f2_set = {p[:-1] for p in f1_paths}, set(f2_paths)
+        want_m = [[n, "alias", "pkg.a_impl." + n, True] for n in imported] + \
+                 [[n, t[0], t[1] if t[0] == "alias" else t[KIND], False] for n, t in t_pyi[MEM] if n not in imported]
+        ctx.case(case, bool(restricted[MEM]))
+        ctx.observe("stream", "alias-to-loaded-target")
+        # model input: m.py as visited, each alias carrying the current value of its (loaded) target
+        write(d / "in" / "m.py", m_src)
+        t_m = abstract(visit_file(d / "in" / "m.py"))
+        impl_by = dict((n, t) for n, t in t_impl[MEM])
+        t_m[MEM] = [[n, ["alias_to", t[1], t[2], impl_by[n]]] for n, t in t_m[MEM]]
+        model_q = [["set_member", [False, t_m], [True, t_pyi]], ["set_member", [True, t_pyi], [False, t_m]], ["gaps", t_pyi, t_m]]
+        model_r = ctx.model(model_q) if use_model else None
+        if use_model and len(XCHECK) < 60 and idx % 5 == 0:
+            XCHECK.extend(model_q[1:])
+        if model_r is not None and bool(model_r[2][2]) != (exp_f3 != exp):
+            ctx.tie_failure("correspondence", "known_gap_F3 (model) vs python mirror", {"model": model_r[2], "python": exp_f3 != exp}, case)
+        results = []
+        for order in (["__init__.py", "a_impl.py", "m.py", "m.pyi"], ["__init__.py", "a_impl.py", "m.pyi", "m.py"]):
+            shutil.rmtree(d / "P", ignore_errors=True)
+            write(d / "P" / "pkg" / "__init__.py", "")
+            write(d / "P" / "pkg" / "a_impl.py", py)
+            write(d / "P" / "pkg" / "m.py", m_src)
+            write(d / "P" / "pkg" / "m.pyi", pyi)
+            try:
+                with walk_listed(order):
+                    pkg = griffe.load("pkg", search_paths=[str(d / "P")], allow_inspection=False)
+                got = norm_result(abstract(pkg.members["a_impl"]))
+                m = pkg.members["m"]
+                got_m = [[n, "alias" if x.is_alias else "obj", x.target_path if x.is_alias else x.kind.value, bool(x.runtime)] for n, x in m.members.items()]
+                is_pyi = m.filepath.suffix == ".pyi"
+            except Exception as e:  # noqa: BLE001
+                ctx.property_failure({**case, "order": order[2:]}, {"raised": type(e).__name__, "expected": "no exception"})
+                ctx.observe("outcome:alias-to-loaded-target", type(e).__name__)
+                continue
+            ctx.observe("outcome:alias-to-loaded-target", "ok")
+            results.append((got, got_m, is_pyi))
+            if model_r is not None:
+                after = dict((n, x) for n, x in pkg.members["a_impl"].members.items())
+                live = abstract(m)
+                live[MEM] = [[n, (["alias_to", t[1], t[2], abstract(after[n])] if n in imported else t)] for n, t in live[MEM]]
+                got_c = ["ok", [is_pyi, norm_result(live)]]
+                mo = norm_model(model_r[0 if order[2] == "m.py" else 1])
+                ctx.observe("model_outcome(alias-to-loaded-target)", mo[0] if mo[0] == "ok" else mo[1])
+                if mo != got_c:
+                    ctx.tie_failure("correspondence", f"model vs griffe [alias-to-loaded-target, {order[2]} first]",
+                                    {"differences": [list(map(str, x)) for x in (tree_diff(_tree(mo), _tree(got_c))[:8] if mo[0] == "ok" else [])],
+                                     "model": str(mo)[:600], "impl": str(got_c)[:600]}, case)
+            if is_pyi:
+                ctx.property_failure({**case, "order": order[2:]}, {"result_is": "the stubs module", "expected": "the runtime module"})
+            if got_m != [[n, ("alias" if k == "alias" else "obj"), v, r] for n, k, v, r in want_m]:
+                ctx.property_failure({**case, "order": order[2:]}, {"members_of_m": got_m, "expected": want_m})
+            d_ok = tree_diff(got, exp)
+            d_def = tree_diff(got, exp_f3) if d_ok else []
+            k3 = [x for x in d_ok if x not in d_def]          # explained by F3: stub-only members missing below an alias
+            if k3 and all(x[1].startswith("member-names") and len(x[0]) >= 1 for x in k3):
+                ctx.property_failure({**case, "order": order[2:]}, {"differences": k3[:10]}, finding="C19-F3")
+                diffs = [x for x in d_ok if x in d_def]
+            else:
+                diffs = d_ok
+            k1 = [x for x in diffs if any(x[0][:len(sc)] == sc and sc for sc in f1_scopes)]
+            k2 = [x for x in diffs if x not in k1 and x[0] in f2_set and x[1] == "overloads"]
+            unknown = [x for x in diffs if x not in k1 and x not in k2]
+            if k1:
+                ctx.property_failure({**case, "order": order[2:]}, {"differences": k1[:10]}, finding="C19-F1")
+            if k2:
+                ctx.property_failure({**case, "order": order[2:]}, {"differences": k2[:10]}, finding="C19-F2")
+            if unknown:
+                ctx.property_failure({**case, "order": order[2:]}, {"target_module_differs_from_property": [list(map(str, x)) for x in unknown[:10]],
+                                                                   "a_impl_after": got, "expected": exp})
+        if len(results) == 2 and results[0] != results[1]:
+            ctx.property_failure(case, {"order_dependent": [list(map(str, x)) for x in tree_diff(results[0][0], results[1][0])[:10]],
+                                        "m_first": results[0][1], "m_second": results[1][1]})
+    finally:
+        shutil.rmtree(d, ignore_errors=True)
 
 
 def explore(ctx):
@@ -747,7 +909,7 @@ def explore(ctx):
         for f in sorted(cdir.glob("*.json")):
             j = json.loads(f.read_text())
             pairs.append((j["py"], j["pyi"], "corpus-file"))
-    n_random = ctx.budget(260, 5000)
+    n_random = ctx.budget(450, 6000)
     for _ in range(n_random):
         py, pyi = gen_pair(ctx.rng)
         pairs.append((py, pyi, "random"))
@@ -755,6 +917,8 @@ def explore(ctx):
         if has_nested_import(py) and stream == "random":
             ctx.observe("nested_import", 1)
         r = run_case(ctx, idx, py, pyi, stream)
+        if stream == "corpus" or idx % 3 == 0:
+            run_resolvable_case(ctx, idx, py, pyi)
         idx += 1
         if r is not None:
             batch.append(r)
@@ -764,13 +928,8 @@ def explore(ctx):
     if batch:
         compare_with_model(ctx, batch)
     if not ctx.quick:
-        sample = []
-        for py, pyi in CORPUS[:8]:
-            d = ctx.scratch / "x"
-            write(d / "m.py", py)
-            write(d / "m.pyi", pyi)
-            sample.append(["merge", abstract(visit_file(d / "m.pyi")), abstract(visit_file(d / "m.py"))])
-        ctx.cross_check_extraction(sample, n=8)
+        # extraction check: the same queries evaluated inside Coq (vm_compute) and by the extracted OCaml driver
+        ctx.cross_check_extraction(XCHECK, n=24)
 
 
 def search(ctx):
@@ -784,6 +943,8 @@ def search(ctx):
     for _ in range(1500):
         py, pyi = gen_pair(ctx.rng)
         run_case(ctx, idx, py, pyi, "search-random", use_model=False)
+        if idx % 3 == 0:
+            run_resolvable_case(ctx, idx, py, pyi, use_model=False)
         idx += 1
         if ctx.prop_failures:
             return
@@ -791,6 +952,19 @@ def search(ctx):
 
 def replay(ctx, data):
     case = data.get("failing_input") or {}
+    if "a_impl.py" in case:
+        print("---- pkg/a_impl.py\n" + case["a_impl.py"] + "---- pkg/m.py\n" + case["m.py"] + "---- pkg/m.pyi\n" + case["m.pyi"])
+        ctx.scratch.mkdir(parents=True, exist_ok=True)
+        try:
+            run_resolvable_case(ctx, 0, case["a_impl.py"], case["m.pyi"], use_model=ctx.driver is not None)
+            for f in ctx.prop_failures:
+                print("PROPERTY FAILURE:", json.dumps(f["detail"], default=str)[:1500], "classified:", f["classified_as"])
+            for t in ctx.tie_failures:
+                print("MODEL DISAGREES:", t["name"], json.dumps(t["detail"], default=str)[:1500])
+            print("known-gap hits:", dict(ctx.known_hits))
+        finally:
+            shutil.rmtree(ctx.scratch, ignore_errors=True)
+        return 0
     if "py" not in case:
         print("replay names no input:", data.get("no_longer_checks"))
         return 0
